@@ -26,7 +26,7 @@ type c03Batch struct {
 	subset uint64
 }
 
-var c03Kinds = []string{"random-g1", "swapped-pair", "plus-minus-d", "three-way", "three-way-weighted", "plus-T3", "malformed", "bad-length", "infinity-sig", "identity-key", "identity-key-infinity-sig", "mixture", "neighbour-key", "compensating-lengths"}
+var c03Kinds = []string{"random-g1", "swapped-pair", "plus-minus-d", "three-way", "three-way-weighted", "plus-T3", "malformed", "bad-length", "infinity-sig", "identity-key", "identity-key-infinity-sig", "mixture", "neighbour-key", "compensating-lengths", "plus-minus-T3"}
 
 // c03Build makes a batch of n valid entries and invalidates the positions in `bad` by `kind`.
 func c03Build(r *rand.Rand, n int, bad []int, kind string, h hash.Hasher, hn string) (*c03Batch, error) {
@@ -96,6 +96,20 @@ func c03Build(r *rand.Rand, n int, bad []int, kind string, h hash.Hasher, hn str
 		}
 		if len(bad)%2 == 1 {
 			inval(bad[len(bad)-1], "random-g1")
+		}
+	case "plus-minus-T3":
+		// s_i + T and s_j - T for a small-order point T outside G1: each is outside G1 (individually
+		// invalid), their sum is the sum of the valid signatures and lies in G1
+		for j := 0; j+1 < len(bad); j += 2 {
+			T := tor3()
+			if j%4 == 2 {
+				T = tor11()
+			}
+			b.sigs[bad[j]] = ref.EncodeG1(ref.E1.Add(pts[bad[j]], T))
+			b.sigs[bad[j+1]] = ref.EncodeG1(ref.E1.Sub(pts[bad[j+1]], T))
+		}
+		if len(bad)%2 == 1 {
+			inval(bad[len(bad)-1], "plus-T3")
 		}
 	case "three-way":
 		j := 0
